@@ -537,10 +537,10 @@ func init() {
 		},
 		Cmds: []string{"obimultiplex"},
 		Subs: []core.Sub{
-			{Name: "construct", N: core.Const(640, 6000), Run: runConstruct},
-			{Name: "strand", N: core.Const(320, 3000), Run: runStrand},
-			{Name: "safety", N: core.Const(480, 4500), Run: runSafety},
-			{Name: "e2e", N: core.Const(128, 1600), Run: runE2E},
+			{Name: "construct", N: core.Const(640, 18000), Run: runConstruct},
+			{Name: "strand", N: core.Const(320, 9000), Run: runStrand},
+			{Name: "safety", N: core.Const(480, 13500), Run: runSafety},
+			{Name: "e2e", N: core.Const(128, 4800), Run: runE2E},
 		},
 		MinNontrivial: 500,
 	})
